@@ -341,6 +341,13 @@ def families(tier):
     for t in (TRIANGLES if tier == 'thorough' else ['ccw-acute']):
         fams.append(('encloses-%s' % t, M, 'fam_encloses', {'tri': t}))
     fams.append(('is-contained-by', M, 'fam_contained', {}))
+    # area of paths with arcs under translated/rotated/scaled: the transformed Arc keeps its flags, scales its radii, moves its end points (shared with C10)
+    fams.append(('arc-ops-structure', 'vf.props.c10', 'fam_arc_ops_structure', {}))
+    # is_contained_by rejects on the outer path's bounding box and aims its probe just outside it: the boxes must contain the curve (shared with C08)
+    fams.append(('bbox-cubic-degenerate', 'vf.props.c08', 'fam_minmax', {'deg': 3, 'degenerate': True}))
+    fams.append(('bbox-quadratic', 'vf.props.c08', 'fam_minmax', {'deg': 2, 'degenerate': False}))
+    for k in range(5):
+        fams.append(('bbox-cubic-closed-form-%d' % k, 'vf.props.c08', 'fam_minmax', {'deg': 3, 'degenerate': False, 'shard': (k, 5)}))
     # the enclosure probe is a Line intersected with every segment of the outline: for arcs, the closed form of Arc x Line (shared with C11)
     for nm, rad in (('2x1', (2.0, 1.0)), ('1x3', (1.0, 3.0)), ('circle', (2.0, 2.0))):
         for ln in ('slope', 'vertical'):
